@@ -530,3 +530,38 @@ def result_type_promotion(oi: int, ai: int, bi: int, i1: int, i2: int) -> bool:
     if op == 'div' and exact.denominator & (exact.denominator - 1):
         return True          # not exact in binary: only the type is checked
     return Fraction(r) == exact
+
+
+# --- added after round-4 seeded changes: fn:round / round-half-to-even with NEGATIVE precision on concrete values (the E2 obligation loses its
+#     verdict when the quantize exponent is computed in a way the translator does not model) --------------------------------------------------
+
+RNEG = (1250, 1350, -1250, 49, 50, -50, 5, 1234)
+RNEG_DEC = (Decimal('1234.5678'), Decimal('-1250'), Decimal('1250.00'), Decimal('149.99'), Decimal('150'))
+
+
+@ob(budget=200, bound='value from a table of 8 integers, 5 decimals and the 8 integers as doubles; precision in {-1, -2, -3} (indices chosen by the solver, '
+                      'concrete on each path): fn:round = nearest multiple of 10^-p with ties toward +INF, round-half-to-even = ties to even, '
+                      'result type = argument type',
+    funcs=['elementpath/xpath30/_xpath30_functions.py:evaluate__round', 'elementpath/xpath2/_xpath2_functions.py:evaluate__round_half_to_even'])
+def round_negative_precision_values(i: int, kind: int, pi: int) -> bool:
+    """
+    pre: 0 <= i <= 7 and 0 <= kind <= 2 and 1 <= pi <= 3
+    post: _
+    """
+    import math as _m
+    i = [k for k in range(8) if k == i][0]
+    kind = 0 if kind == 0 else 1 if kind == 1 else 2
+    p = -(1 if pi == 1 else 2 if pi == 2 else 3)
+    if kind == 1 and i > 4:
+        return True
+    x = RNEG[i] if kind == 0 else RNEG_DEC[i] if kind == 1 else float(RNEG[i])
+    fx = Fraction(x)
+    unit = Fraction(10) ** (-p)
+    y = fx / unit
+    f = _m.floor(y)
+    up = Fraction(_m.floor(y + Fraction(1, 2))) * unit
+    even = Fraction(f + 1 if y - f > Fraction(1, 2) else f if y - f < Fraction(1, 2) else (f if f % 2 == 0 else f + 1)) * unit
+    gu = _one(T['round2'].evaluate(XPathContext(item=1, variables={'a': x, 'p': p})))
+    ge = _one(T['rhe2'].evaluate(XPathContext(item=1, variables={'a': x, 'p': p})))
+    want_type = (int, Decimal, float)[kind]
+    return Fraction(gu) == up and Fraction(ge) == even and isinstance(gu, want_type) and isinstance(ge, want_type)
